@@ -44,8 +44,12 @@ def guard_boundary(ctx, fn, bb):
     return True, ""
 
 
+SUM = ("`total` is the sum of the display widths of all items (Line::width), so it is at least the width of the last item; "
+       "the outer subtraction sits in the else-branch of `total - last > width`")
 TABLE = [
     (r"^<str as radicle_term::cell::Cell>::truncate$", r"index:index str\[", "SAFE", "decided per site by the BOUNDARY rule (keys boundary:*)", None),
+    # exactly the three subtractions of today's Line::truncate; a further one gets ordinal #3 and is unreviewed
+    (r"^radicle_term::element::Line::truncate$", r"^sub:SubWithOverflow#[0-2]$", "SAFE", SUM, None),
 ]
 
 
